@@ -11,6 +11,8 @@ package main
 // that defines it (loops). Pruning removes only infeasible paths.
 
 import (
+	"go/types"
+	"strconv"
 	"reflect"
 	"fmt"
 	"go/token"
@@ -195,6 +197,30 @@ func (p *Prog) branchSuccs(b *ssa.BasicBlock, f facts) ([]*ssa.BasicBlock, []fac
 		}
 		return b.Succs[1:2], []facts{f}
 	}
+	// `i < len(lit)` with i known on this path and lit a slice literal of known length (a counted
+	// loop over `[]T{a, b}` runs at least once)
+	if bo, isB := iff.Cond.(*ssa.BinOp); isB && bo.Op == token.LSS {
+		if n, okN := literalLen(bo.Y); okN {
+			x := bo.X
+			var add int64
+			if ab, isAdd := x.(*ssa.BinOp); isAdd && ab.Op == token.ADD {
+				if k, isK := constInt(ab.Y); isK {
+					x, add = ab.X, k
+				}
+			}
+			for fk, v := range f {
+				if v && fk.v == x {
+					if c, err := strconv.ParseInt(fk.c, 10, 64); err == nil {
+						c += add
+						if c < n {
+							return b.Succs[:1], []facts{f}
+						}
+						return b.Succs[1:2], []facts{f}
+					}
+				}
+			}
+		}
+	}
 	k, eq, ok := p.condFact(iff.Cond)
 	if !ok {
 		return b.Succs, []facts{f, f}
@@ -296,11 +322,29 @@ func (p *Prog) reachGen(fn *ssa.Function, from ssa.Instruction, startBlock *ssa.
 			if _, isRet := in.(*ssa.Return); isRet && s.stack != nil {
 				// return from a helper explored in line: resume in the caller
 				fr := s.stack
-				key := fmt.Sprintf("%s>%p|%d|%d|%s", sigOf(fr.next), fr.b.Parent(), fr.b.Index, fr.i, s.f.sig())
+				rf := s.f
+				// a helper that reports what it did: the caller's test of the result is decided by
+				// which return was taken
+				if ret := in.(*ssa.Return); len(ret.Results) == 1 && fr.call != nil && fr.call.Value() != nil {
+					rv := ret.Results[0]
+					if ld, isLd := rv.(*ssa.UnOp); isLd && ld.Op == token.MUL {
+						// a function with a defer returns through a result cell
+						if cell, isA := ld.X.(*ssa.Alloc); isA {
+							if rs, okR := p.reachingStores(ld, cell); okR && len(rs) == 1 {
+								rv = rs[0]
+							}
+						}
+					}
+					if cst, isC := rv.(*ssa.Const); isC && cst.Value != nil && cst.Value.Kind().String() == "Bool" {
+						rf = s.f.clone()
+						rf[factKey{fr.call.Value(), "true"}] = constStr(cst) == "true"
+					}
+				}
+				key := fmt.Sprintf("%s>%p|%d|%d|%s", sigOf(fr.next), fr.b.Parent(), fr.b.Index, fr.i, rf.sig())
 				if !seen[key] {
 					seen[key] = true
 					n++
-					queue = append(queue, &state{b: fr.b, i: fr.i, f: s.f, parent: s, stack: fr.next})
+					queue = append(queue, &state{b: fr.b, i: fr.i, f: rf, parent: s, stack: fr.next})
 				}
 				blocked = true
 				break
@@ -692,8 +736,8 @@ func (p *Prog) dominatesDepth(a, b ssa.Instruction, depth int) bool {
 		if fa := a.Parent(); p.isHelper(fa) {
 			onAll := true
 			for _, blk := range fa.Blocks {
-				if len(blk.Instrs) == 0 {
-					continue
+				if len(blk.Instrs) == 0 || blk == fa.Recover {
+					continue // (the recover block of a function with a defer is not a normal exit)
 				}
 				if _, isRet := blk.Instrs[len(blk.Instrs)-1].(*ssa.Return); isRet {
 					if !(a.Block() == blk || a.Block().Dominates(blk)) {
@@ -830,13 +874,41 @@ func (p *Prog) predicateBody(v ssa.Value) (ssa.Value, bool, bool) {
 		return nil, false, false
 	}
 	g := c.Common().StaticCallee()
-	if g == nil || !p.isPlainHelper(g) || len(g.Blocks) != 1 {
+	if g == nil || !p.isPlainHelper(g) {
 		return nil, false, false
 	}
-	ret, ok := g.Blocks[0].Instrs[len(g.Blocks[0].Instrs)-1].(*ssa.Return)
-	if !ok || len(ret.Results) != 1 {
+	// straight-line code (a deferred unlock adds a recover block, which is not a normal exit)
+	var ret *ssa.Return
+	for _, b := range g.Blocks {
+		if b == g.Recover || len(b.Instrs) == 0 {
+			continue
+		}
+		switch x := b.Instrs[len(b.Instrs)-1].(type) {
+		case *ssa.If:
+			return nil, false, false
+		case *ssa.Return:
+			if ret != nil {
+				return nil, false, false
+			}
+			ret = x
+		}
+	}
+	if ret == nil || len(ret.Results) != 1 {
 		return nil, false, false
 	}
+	rv := ret.Results[0]
+	if ld, isLd := rv.(*ssa.UnOp); isLd && ld.Op == token.MUL {
+		if cell, isA := ld.X.(*ssa.Alloc); isA {
+			if rs, okR := p.reachingStores(ld, cell); okR && len(rs) == 1 {
+				rv = rs[0]
+			}
+		}
+	}
+	body, neg := stripNot(rv)
+	return body, neg, true
+}
+
+func unusedPredicateTail(ret *ssa.Return) (ssa.Value, bool, bool) {
 	body, neg := stripNot(ret.Results[0])
 	return body, neg, true
 }
@@ -976,4 +1048,29 @@ func (p *Prog) unionCuts(cuts ...map[edge]bool) map[edge]bool {
 		p.registerCut(out, p.cutMatchersOf(c)...)
 	}
 	return out
+}
+
+// literalLen: v is len(x) where x is a slice of an array allocated in the same function ([]T{…}).
+func literalLen(v ssa.Value) (int64, bool) {
+	c, ok := v.(*ssa.Call)
+	if !ok || calleeName(c) != "builtin len" || len(c.Call.Args) != 1 {
+		return 0, false
+	}
+	sl, ok := c.Call.Args[0].(*ssa.Slice)
+	if !ok || sl.Low != nil || sl.High != nil {
+		return 0, false
+	}
+	al, ok := sl.X.(*ssa.Alloc)
+	if !ok {
+		return 0, false
+	}
+	pt, ok := al.Type().Underlying().(*types.Pointer)
+	if !ok {
+		return 0, false
+	}
+	at, ok := pt.Elem().Underlying().(*types.Array)
+	if !ok {
+		return 0, false
+	}
+	return at.Len(), true
 }
